@@ -15,8 +15,10 @@ LEVEL = 'exploration'
 RULE = ('random programs of 1-5 operations from {copy, slice (int/slice/list '
         'selectors over TSTEP/LAY/ROW/COL/PERIM), subset, rename, apply '
         '(reducers and length-changing callables incl. over TSTEP and LAY), '
-        'eval, mask, stack(TSTEP), interpSigma} on gridded and boundary IOAPI '
-        'files built by from_arrays, from GRIDDESC parameters, or written to '
+        'eval, mask, stack(TSTEP), interpSigma; renames also with copyall=False '
+        'and onto existing names} on gridded and boundary IOAPI '
+        'files built by from_arrays, from GRIDDESC parameters (with and '
+        'without the CF coordinate variables), or written to '
         'disk and reopened; the coherence oracle runs on the real result of '
         'every step. non-trivial = the operation returned; distinct = digest '
         'of (operation, input digest).')
